@@ -17,6 +17,9 @@ TRUSTED = [
     "int()/str.isdecimal() on non-ASCII decimal digits, frames stored under a key different from their HashKey and people records that are not pairs are outside the model "
     "(never generated)",
     "the genre table (mutagen._constants.GENRES) is read from the implementation at run time and passed to the model as a parameter; the theorems hold for every table",
+    "object identity is outside the model (Gallina values have none): that a conversion or a save leaves the frame objects of the source tag alone, and that a second "
+    "save / conversion of the same Python object writes what the first wrote, is checked by the history oracle only (ID3.save after update_to_v23/update_to_v24, "
+    "the copy/update_to_v23/save/restore pattern, EasyID3.save(v2_version=3) twice then v2_version=4), judged on the raw bytes by the independent walker",
 ]
 MANIFEST = {
     "text": "full for the conversion functions over the modelled frame kinds (text / time-stamp / TXXX / COMM / people-list / APIC / CHAP / CTOC with nested sub-frames / "
@@ -39,9 +42,11 @@ MANIFEST = {
     "design_ref": "DESIGN.md section 5, C13",
 }
 RULE = ("seeded random tags over TDRC/TDOR/TDRL (every precision, several values, zero fields, garbage), TYER/TDAT/TIME/TORY (valid, garbage, several values), TIPL/TMCL/IPLS, "
-        "multi-valued TIT2/TPE1/TALB/TCON/TRCK/TXXX/COMM in the four encodings incl. astral characters, APIC with v2.2 mime, CHAP/CTOC with nested sub-frames, frames existing in "
+        "multi-valued TIT2/TPE1/TALB/TCON/TXXX/COMM and multi-valued numeric text frames (TRCK/TPOS/TBPM/TLEN/TDLY/TCMP/TYER/TORY, MVIN/GRP1) in the four encodings incl. astral characters, APIC with v2.2 mime, CHAP/CTOC with nested sub-frames, frames existing in "
         "one version only, conflicting old+new frames; x update_to_v23 / update_to_v24 / separators '/', ';', None, ' / ' / ID3v1 option 0,1,2 / existing file content; hand-built "
-        "v2.2 and v2.3 tags and the sample files. non-trivial = the conversion changed, created or removed at least one frame, or a save was decoded; distinct by (operation, tag description)")
+        "v2.2 and v2.3 tags and the sample files; histories on one in-memory object per generated tag (convert + save twice + save over the own output + convert again, "
+        "copy/convert/save/restore twice then v2.4, EasyID3 v2.3 twice then v2.4 with musician credits added through the EasyID3 keys, v2.3 form -> update_to_v24 saved twice, "
+        "held frame objects compared before/after both conversions on arbitrary tags). non-trivial = the conversion changed, created or removed at least one frame, or a save was decoded; distinct by (operation, tag description)")
 
 SEPS = ["/", ";", None, " / "]
 
@@ -388,6 +393,9 @@ def gen_desc(rng, depth=0):
         if p(0.1):
             e = enc()
             d.append(("T", i, e, rvals(rng, e)))
+    for i in ("TBPM", "TPOS", "TLEN", "TDLY", "TCMP", "MVIN", "GRP1"):
+        if p(0.1):
+            d.append(("T", i, enc(), tuple(rng.choice(["120", "1/2", "0", "7", "x", "", "2/2", "+3"]) for _ in range(rng.choice([0, 1, 2, 2, 3])))))
     for _ in range(rng.choice([0, 0, 1, 2])):
         e = enc()
         d.append(("X", e, rtext(rng, e, 0, 4), rvals(rng, e)))
@@ -655,7 +663,7 @@ def dec_frame(fid, ver, payload):
             mime, rest = W._split_term(0, payload[1:])
             d, data = W._split_term(enc, rest[1:])
             return ("A", enc, mime.decode("latin-1"), rest[0], W._dec_text(enc, d), bytes(data))
-        if fid[0] == "T":
+        if fid[0] == "T" or fid in TEXT_IDS_NO_T:
             enc = payload[0]
             return ("T", fid, enc, tuple(W._text_list(enc, payload[1:])))
     except (IndexError, UnicodeDecodeError, KeyError, struct.error):
@@ -701,6 +709,11 @@ def gen_fields(rng):
     return tuple(f[:prec] + [None] * (6 - prec))
 
 
+NUMERIC_POOLS = (("TBPM", ["120", "128", "90", "200"]), ("TLEN", ["1000", "215000", "7"]), ("TPOS", ["1/2", "2/2", "1", "3"]), ("TDLY", ["0", "150", "20"]),
+                 ("TCMP", ["1", "0"]), ("MVIN", ["1/3", "2/3", "2"]), ("GRP1", ["Group a", "b;c", "d/e"]))
+TEXT_IDS_NO_T = ("MVIN", "MVNM", "GRP1")
+
+
 def gen_clean(rng, depth=0):
     """a clean v2.4-style tag description (valid for saving and reloading) plus what the property says about it"""
     meta = {"texts": {}, "people": None}
@@ -741,9 +754,25 @@ def gen_clean(rng, depth=0):
         d.append(("T", "TCON", e, g))
         meta["texts"]["TCON"] = g
     if p(0.6):
-        tr = rng.choice(["5", "5/7", "12/12", "255", "256/300", "0"])
-        d.append(("T", "TRCK", enc(), (tr,)))
-        meta["trck"] = tr
+        tr = tuple(rng.choice(["5", "5/7", "12/12", "255", "256/300", "0"]) for _ in range(rng.choice([1, 1, 2, 3])))
+        d.append(("T", "TRCK", enc(), tr))
+        meta["trck"] = tr[0]
+        meta["texts"]["TRCK"] = tr
+    # the other numeric text-frame classes (NumericTextFrame / NumericPartTextFrame and the text frames without a 'T' id), multi-valued as well
+    for i, pool in NUMERIC_POOLS:
+        if p(0.3):
+            v = tuple(rng.choice(pool) for _ in range(rng.choice([1, 2, 2, 3])))
+            d.append(("T", i, enc(), v))
+            meta["texts"][i] = v
+    # an in-memory tag may also hold the v2.3 forms directly (no TDRC / TDOR to conflict with): they are numeric text frames, too
+    if "tdrc" not in meta and p(0.5):
+        v = tuple("%04d" % rng.choice([1, 987, 1999, 2004, 9999, rng.randrange(1, 10000)]) for _ in range(rng.choice([1, 2, 2, 3])))
+        d.append(("T", "TYER", enc(), v))
+        meta["tyer"] = v
+    if "tdor" not in meta and p(0.3):
+        v = tuple("%04d" % rng.randrange(1, 10000) for _ in range(rng.choice([1, 2])))
+        d.append(("T", "TORY", enc(), v))
+        meta["tory"] = v
     meta["txxx"] = []
     for k in range(rng.choice([0, 1, 2])):
         e = enc()
@@ -853,7 +882,20 @@ def check_level(ctx, viol, dec, meta, v2, sep, where=""):
             got = by.get("IPLS", [None])[0]
             if got is None or got[3] != want:
                 viol("v2.3 IPLS is not the TIPL list followed by the TMCL list" + where, "ipls")
+            if len(by.get("IPLS", [])) > 1:
+                viol("v2.3 tag contains more than one IPLS frame" + where, "ipls-dup")
+        if sep is not None:
+            # ID3v2.3 has no multi-valued text: with a separator EVERY text frame class (plain, numeric, numeric-part, TXXX, COMM) holds one string
+            for fr in dec:
+                if (fr[0] in ("T", "X") and len(fr[3]) > 1) or (fr[0] == "C" and len(fr[4]) > 1):
+                    viol("v2.3 text frame holds several NUL-separated values although a separator was given" + where, "v23-multivalue-not-joined")
+                    break
     else:
+        if "tyer" in meta:
+            if text_of("TDRC") != meta["tyer"]:
+                viol("the TYER years of the in-memory tag are not carried into TDRC of the v2.4 tag" + where, "tyer-to-tdrc")
+            if "TYER" in by:
+                viol("v2.4 tag contains the v2.3-only frame TYER" + where, "v23-frame-in-v24")
         if "tdrc" in meta:
             got = text_of("TDRC")
             if got is None or got[0] != stamp_text(meta["tdrc"]):
@@ -867,6 +909,10 @@ def check_level(ctx, viol, dec, meta, v2, sep, where=""):
             if got is None or got[3] != pl:
                 viol("v2.4 tag does not carry the %s people list" % fid + where, "people24")
     jn = lambda v: tuple(v) if (v2 == 4 or sep is None) else (sep.join(v),)
+    if v2 == 3:
+        for fid, key in (("TYER", "tyer"), ("TORY", "tory")):
+            if key in meta and text_of(fid) != jn(meta[key]):
+                viol("multi-valued text is not carried (joined by the separator, or kept separate when none is given)" + where, "multivalue")
     for fid, v in meta["texts"].items():
         if v2 == 3 and fid == "TSOP":
             continue            # v2.4-only frame, dropped by update_to_v23
@@ -903,6 +949,8 @@ def check_v1_block(ctx, viol, block, meta, mem, v2):
         if block[a:a + 30] != want:
             viol("ID3v1 %s is not the Latin-1 ('?' replacement), 30-byte truncated, NUL padded image of the v2 frame" % name, "v1-" + name)
     y = (meta.get("tdrc") or (None,))[0]
+    if y is None and "tyer" in meta:
+        y = int(meta["tyer"][0])
     if block[93:97] != (("%04d" % y).encode() if y else b"\0\0\0\0"):
         viol("ID3v1 year does not reflect the v2 recording year", "v1-year")
     firsts = [ref_latin1(mem["C", c[3], c[2]], 28) + b"\0" for c in meta["comm"]]
@@ -1008,6 +1056,221 @@ def oracle_case(ctx, case_seed, v2, sep, v1, existing):
 
 def _meta_json(m):
     return m
+
+
+# ---- histories on ONE in-memory object: the caller keeps the tag / the frames around a conversion or a save and saves again
+HIST_MODES = ("id3-twice", "copy-restore", "easy", "u24-held", "desc-held")
+
+
+def leaf_frames(t, skip=()):
+    """every frame object reachable from the tag that is not itself a container (CHAP/CTOC sub-frame tags are converted in place by design)"""
+    out = []
+    for f in t.values():
+        if hasattr(f, "sub_frames"):
+            out.extend(leaf_frames(f.sub_frames, skip))
+        elif f.FrameID not in skip:
+            out.append(f)
+    return out
+
+
+def desc_of_canon(frames):
+    """canonical tuples -> a description build_tag accepts (time stamps back to text)"""
+    out = []
+    for fr in frames:
+        if fr[0] == "S":
+            fr = fr[:3] + (tuple(stamp_text(d) for d in fr[3]),)
+        elif fr[0] == "H":
+            fr = fr[:6] + (desc_of_canon(fr[6]),)
+        elif fr[0] == "O":
+            fr = fr[:4] + (desc_of_canon(fr[4]),)
+        elif fr[0] == "R":
+            fr = ("R", fr[1])
+        out.append(fr)
+    return tuple(out)
+
+
+def meta_via_v24(meta):
+    """what the property says about the tag once it went through update_to_v24 (EasyID3 and the copy/restore pattern work on v2.4 frames):
+    the TYER years are a TDRC then, of which only the first value has a v2.3 form; a single TORY year is a TDOR (a multi-valued TORY has no
+    TDOR form: update_to_v24 builds it from str(frame) -- code detail, no claim made)"""
+    m = dict(meta)
+    if "tyer" in m:
+        m["tdrc"] = (int(m.pop("tyer")[0]), None, None, None, None, None)
+    if "tory" in m:
+        v = m.pop("tory")
+        if len(v) == 1:
+            m["tdor"] = (int(v[0]), None, None, None, None, None)
+    for key in ("chap", "ctoc"):
+        if key in m:
+            m[key] = [(eid, meta_via_v24(sm)) for eid, sm in m[key]]
+    return m
+
+
+def _decode_save(viol, raw, v2, what):
+    """independent walk + decode of a saved file; None (and a violation) if it is not valid for the version"""
+    try:
+        w = W.id3v2_walk(raw)
+        dec = tuple(dec_frame(i, v2, p) for i, fl, p in w["frames"])
+    except W.Bad as e:
+        viol("%s is not walkable / decodable under the v2.%d layout" % (what, v2), "sizes")
+        return None
+    if w["version"] != v2:
+        viol("%s declares version 2.%d, asked for 2.%d" % (what, w["version"], v2), "version-byte")
+    if v2 == 3 and any(e not in (0, 1) for fr in dec for e in encs_of(fr)):
+        viol("v2.3 tag contains a text encoding other than Latin-1 / UTF-16", "encoding")
+    return dec
+
+
+def oracle_history(ctx, case_seed, mode, sep, v1, existing):
+    """a history of conversions / saves on the same in-memory object. The property quantifies over every save: a later save of the same
+    object must write what the first one wrote, the frames the caller still holds are the v2.4 SOURCE and must stay what they were,
+    and the information claims hold for the LAST save of the history just as for the first. Returns the number of violations added."""
+    I = M()[0]
+    before = len(ctx.violations)
+    data = {"hist_seed": case_seed, "mode": mode, "sep": sep, "v1": v1, "existing": existing}
+
+    def viol(what, cls):
+        _viol(ctx, what, cls, data)
+        data.pop("detail", None)
+    rng = random.Random(case_seed)
+    if mode == "desc-held":
+        desc, meta = gen_desc(rng), None
+    else:
+        desc, meta = gen_clean(rng)
+    data["desc"] = desc_json(desc)
+    base = EXISTING[existing]
+
+    def save(t, over, v2, **kw):
+        f = io.BytesIO(over)
+        t.save(f, v1=v1, v2_version=v2, v23_sep=sep, **kw)
+        return f.getvalue()
+
+    def held_check(t, convert, name, skip=()):
+        held = leaf_frames(t, skip)
+        snap = [canon_frame(f) for f in held]
+        convert()
+        now = [canon_frame(f) for f in held]
+        if now != snap:
+            k = [a != b for a, b in zip(snap, now)].index(True)
+            data["detail"] = ("%r -> %r" % (snap[k], now[k]))[:300]
+            viol("%s changed a frame object of the source tag that the caller still holds" % name, "held-frame-mutated")
+            return False
+        return True
+
+    ctx.oracle_cases += 1
+    ctx.count("oracle:history-" + mode)
+    ctx.case(("hist", mode, repr(desc), sep, v1, existing))
+    try:
+        if mode == "desc-held":
+            # any tag content (conflicting old and new forms included); TCON is normalised in place by both conversions (documented)
+            for op in ("update_to_v23", "update_to_v24"):
+                t = build_tag(desc)
+                held_check(t, getattr(t, op), op, skip=("TCON",))
+        elif mode == "u24-held":
+            # the v2.3 form of the tag, held by the caller, converted to v2.4 and saved twice
+            t = build_tag(desc)
+            t.update_to_v23()
+            t = build_tag(desc_of_canon(canon(t)))
+            held_check(t, t.update_to_v24, "update_to_v24")
+            m1 = canon(t)
+            raw1 = save(t, base, 4)
+            if canon(t) != m1:
+                viol("saving as v2.4 changed the in-memory tag", "save-mutates")
+            if save(t, base, 4) != raw1:
+                viol("saving the same tag object twice as v2.4 writes different bytes", "second-save-differs")
+            _decode_save(viol, raw1, 4, "the v2.4 save")
+        elif mode == "id3-twice":
+            for v2 in (3, 4):
+                t = build_tag(desc)
+                conv = t.update_to_v23 if v2 == 3 else t.update_to_v24
+                held_check(t, conv, conv.__name__)
+                m1 = canon(t)
+                raw1 = save(t, base, v2)
+                if canon(t) != m1:
+                    viol("saving as v2.%d changed the in-memory tag" % v2, "save-mutates")
+                if save(t, base, v2) != raw1:
+                    viol("saving the same tag object twice as v2.%d writes different bytes" % v2, "second-save-differs")
+                if save(t, raw1, v2) != raw1:
+                    viol("saving the same tag object over its own v2.%d save changes the file" % v2, "resave-differs")
+                conv()
+                rawn = save(t, base, v2)
+                if rawn != raw1:
+                    viol("converting the same tag object again and saving as v2.%d writes different bytes" % v2, "second-save-differs")
+                dec = _decode_save(viol, rawn, v2, "the last v2.%d save of the history" % v2)
+                if dec is not None:
+                    check_level(ctx, viol, dec, meta, v2, sep, " (last save of the history)")
+        elif mode == "copy-restore":
+            # the pattern EasyID3.save(v2_version=3) uses on its v2.4 frames: shallow copy, convert, save, restore
+            t = build_tag(desc)
+            if not hasattr(t, "_copy") or not hasattr(t, "_restore"):
+                return 0
+            t.update_to_v24()
+            meta = meta_via_v24(meta)
+            c0 = canon(t)
+            raws = []
+            for n in (1, 2):
+                backup = t._copy()
+                try:
+                    t.update_to_v23()
+                    raws.append(save(t, base, 3))
+                finally:
+                    t._restore(backup)
+                if canon(t) != c0:
+                    a, b = set(norm(c0)), set(norm(canon(t)))
+                    data["detail"] = repr((sorted(a - b, key=repr)[:1], sorted(b - a, key=repr)[:1]))[:400]
+                    viol("the v2.4 frames kept around a v2.3 save (copy, update_to_v23, save, restore) are not what they were", "held-frame-mutated")
+                    break
+            if len(raws) == 2 and raws[0] != raws[1]:
+                viol("the second v2.3 save of the same v2.4 tag writes different bytes than the first", "second-save-differs")
+            dec = _decode_save(viol, raws[-1], 3, "the last v2.3 save of the history")
+            if dec is not None:
+                check_level(ctx, viol, dec, meta, 3, sep, " (last save of the history)")
+            raw4 = save(t, raws[-1], 4)
+            dec = _decode_save(viol, raw4, 4, "the v2.4 save after the v2.3 saves")
+            if dec is not None:
+                check_level(ctx, viol, dec, meta, 4, sep, " (v2.4 save after v2.3 saves of the same object)")
+        elif mode == "easy":
+            from mutagen.easyid3 import EasyID3
+            t = build_tag(desc)
+            t.update_to_v24()
+            f = io.BytesIO(base)
+            t.save(f, v1=0, v2_version=4)
+            raw24 = f.getvalue()
+            # only as a filter: the v2.4 file must load to the tag that was written (the v2.4 size heuristic is C12's subject)
+            if norm(canon(I.ID3(io.BytesIO(raw24), load_v1=False))) != norm(ref_saved(canon(t), 4, None)):
+                ctx.count("oracle:history-easy-skipped")
+                return 0
+            e = EasyID3(io.BytesIO(raw24))
+            meta = meta_via_v24(meta)
+            if not any(i == "TMCL" for i, _ in (meta.get("people") or [])) and rng.random() < 0.6:
+                # the musician credits are added through the public EasyID3 keys
+                pl = tuple(("role%d" % k, rtext(rng, 1).strip() or "n") for k in range(rng.randrange(1, 3)))
+                for role, name in pl:
+                    e["performer:" + role] = [name]
+                meta["people"] = (meta.get("people") or []) + [("TMCL", pl)]
+            shown = {k: list(e[k]) for k in sorted(e.keys())}
+            raws = []
+            for n in (1, 2):
+                fo = io.BytesIO(raw24)
+                e.save(fo, v1=v1, v2_version=3, v23_sep=sep)
+                raws.append(fo.getvalue())
+                if {k: list(e[k]) for k in sorted(e.keys())} != shown:
+                    viol("EasyID3.save(v2_version=3) changed the values the EasyID3 object holds", "held-frame-mutated")
+                    break
+            if len(raws) == 2 and raws[0] != raws[1]:
+                viol("the second EasyID3.save(v2_version=3) of the same object writes different bytes than the first", "second-save-differs")
+            dec = _decode_save(viol, raws[-1], 3, "the last v2.3 save of the history")
+            if dec is not None:
+                check_level(ctx, viol, dec, meta, 3, sep, " (last save of the history)")
+            fo = io.BytesIO(raws[-1])
+            e.save(fo, v1=v1, v2_version=4, v23_sep=sep)
+            dec = _decode_save(viol, fo.getvalue(), 4, "the v2.4 save after the v2.3 saves")
+            if dec is not None:
+                check_level(ctx, viol, dec, meta, 4, sep, " (v2.4 save after v2.3 saves of the same object)")
+    except Exception as e:
+        data["detail"] = repr(e)[:200]
+        viol("a conversion / save history on a valid tag failed: %s" % type(e).__name__, "history-failed")
+    return len(ctx.violations) - before
 
 
 # ---- hand-built v2.2 / v2.3 tags and the sample files: load, save as v2.4 (and v2.3)
@@ -1231,6 +1494,10 @@ def direct_oracle(ctx, n_tags, n_hand):
         for v2, sep, v1, ex in todo:
             if oracle_case(ctx, cs, v2, sep, v1, ex) and len(ctx.violations) > 40:
                 return
+        # histories on the same object: every mode once per tag, separator / ID3v1 option / existing content rotated
+        for j, mode in enumerate(HIST_MODES):
+            if oracle_history(ctx, cs, mode, SEPS[(k + j) % len(SEPS)], (0, 2, 1)[(k + j) % 3], ("audio", "empty", "audio+v1")[(k // 2 + j) % 3]) and len(ctx.violations) > 40:
+                return
     for k in range(n_hand):
         cs = rng.getrandbits(48)
         for src in (2, 3):
@@ -1402,6 +1669,8 @@ def replay(ctx, payload):
         return bool(ctx.violations)
     if "case_seed" in d:
         return oracle_case(ctx, d["case_seed"], d["v2"], d["sep"], d["v1"], d["existing"]) > 0
+    if "hist_seed" in d:
+        return oracle_history(ctx, d["hist_seed"], d["mode"], d["sep"], d["v1"], d["existing"]) > 0
     if "hand_seed" in d:
         return oracle_hand(ctx, d["hand_seed"], d["src"], d["dst"]) > 0
     if "sample" in d:
